@@ -3,79 +3,7 @@
    extracted binary integers, hex decoding, the canonical dump. *)
 open Model
 
-let rec pos_of_int (i : int) : positive =
-  if i = 1 then XH else if i land 1 = 0 then XO (pos_of_int (i lsr 1)) else XI (pos_of_int (i lsr 1))
-let n_of_int i = if i = 0 then N0 else Npos (pos_of_int i)
-let z_of_int i = if i = 0 then Z0 else if i > 0 then Zpos (pos_of_int i) else Zneg (pos_of_int (-i))
-let rec int_of_pos = function XH -> 1 | XO p -> 2 * int_of_pos p | XI p -> 2 * int_of_pos p + 1
-let int_of_n = function N0 -> 0 | Npos p -> int_of_pos p
-let int_of_z = function Z0 -> 0 | Zpos p -> int_of_pos p | Zneg p -> - (int_of_pos p)
-let rec nat_of_int i = if i <= 0 then O else S (nat_of_int (i - 1))
-let rec int_of_nat = function O -> 0 | S n -> 1 + int_of_nat n
-
-(* decimal / hex strings for arbitrarily large extracted numbers, via the model's own division *)
-let n10 = n_of_int 10 and n16 = n_of_int 16
-let rec n_to_base base digits (x : n) : string =
-  match x with
-  | N0 -> ""
-  | _ -> let (q, r) = N.div_eucl x base in n_to_base base digits q ^ String.make 1 digits.[int_of_n r]
-let n_to_dec x = match x with N0 -> "0" | _ -> n_to_base n10 "0123456789" x
-let n_to_hex x = match x with N0 -> "0" | _ -> n_to_base n16 "0123456789abcdef" x
-let z_to_dec = function Z0 -> "0" | Zpos p -> n_to_dec (Npos p) | Zneg p -> "-" ^ n_to_dec (Npos p)
-let pad w s = if String.length s >= w then s else String.make (w - String.length s) '0' ^ s
-
-(* big numbers from decimal / hex strings *)
-let n_of_digits base (s : string) : n =
-  let acc = ref N0 in
-  String.iter (fun c ->
-    let d = if c >= '0' && c <= '9' then Char.code c - 48
-            else if c >= 'a' && c <= 'f' then Char.code c - 87
-            else if c >= 'A' && c <= 'F' then Char.code c - 55 else failwith "digit" in
-    acc := N.add (N.mul !acc base) (n_of_int d)) s;
-  !acc
-let z_of_dec (s : string) : z =
-  if String.length s > 0 && s.[0] = '-' then Z.opp (Z.of_N (n_of_digits n10 (String.sub s 1 (String.length s - 1))))
-  else Z.of_N (n_of_digits n10 s)
-let z_of_hex s = Z.of_N (n_of_digits n16 s)
-
-let bytes_of_hex (h : string) : n list =
-  let h = if h = "-" then "" else h in
-  let l = String.length h / 2 in
-  List.init l (fun i -> n_of_int (int_of_string ("0x" ^ String.sub h (2 * i) 2)))
-let hex_of_bytes (b : n list) : string =
-  if b = [] then "-" else String.concat "" (List.map (fun x -> Printf.sprintf "%02x" (int_of_n x)) b)
-
-let code_name = function
-  | Ok -> "Ok" | EmptyInput -> "EmptyInput" | IncompleteInput -> "IncompleteInput"
-  | InvalidInput -> "InvalidInput" | NoMemory -> "NoMemory" | TooDeep -> "TooDeep"
-  | OutOfFuel -> "OutOfFuel"
-
-let dump_f32 f = match f with S754_nan -> "Fnan" | _ -> "F" ^ pad 8 (n_to_hex (Z.to_N (bits_of_sf f32 f)))
-let dump_f64 f = match f with S754_nan -> "Dnan" | _ -> "D" ^ pad 16 (n_to_hex (Z.to_N (bits_of_sf f64 f)))
-
-let rec dump (v : jv) : string =
-  match v with
-  | JNull -> "n"
-  | JBool true -> "t"
-  | JBool false -> "f"
-  | JInt z -> "i" ^ z_to_dec z
-  | JFloat f -> dump_f32 f
-  | JDouble f -> dump_f64 f
-  | JStr s -> "s" ^ hex_of_bytes s
-  | JRaw s -> "r" ^ hex_of_bytes s
-  | JArr l -> "[" ^ String.concat "," (List.map dump l) ^ "]"
-  | JObj l -> "{" ^ String.concat "," (List.map (fun (k, v) -> hex_of_bytes k ^ ":" ^ dump v) l) ^ "}"
-
-let bool_of_char c = c = '1'
-(* cfg string: 5 chars of 0/1 = decode_unicode comments nan inf use_double *)
-let cfg_of_string (s : string) : cfg =
-  { decode_unicode = bool_of_char s.[0]; enable_comments = bool_of_char s.[1];
-    enable_nan = bool_of_char s.[2]; enable_inf = bool_of_char s.[3]; use_double = bool_of_char s.[4] }
-
-let dump_number = function
-  | NumInvalid -> "invalid" | NumFault -> "fault"
-  | NumUInt z -> "u" ^ z_to_dec z | NumSInt z -> "i" ^ z_to_dec z
-  | NumFloat f -> dump_f32 f | NumDouble f -> dump_f64 f
+open Util
 
 let the_cfg = ref default_cfg
 
@@ -104,6 +32,7 @@ let handle (line : string) : string =
 
 let () =
   Extra.register handle;
+  Extra.add (fun line -> Cmd_doc.handle !the_cfg line);
   try
     while true do
       let line = input_line stdin in
